@@ -1068,8 +1068,11 @@ class RevisionSpec_mainline(RevisionIDSpec):
 
             spec_branch = Branch.open(revspec.get_branch())
         revision_id = revspec.as_revision_id(spec_branch)
-        graph = context_branch.repository.get_graph()
-        result = graph.find_lefthand_merger(revision_id, context_branch.last_revision())
+        with context_branch.lock_read():
+            graph = context_branch.repository.get_graph()
+            result = graph.find_lefthand_merger(
+                revision_id, context_branch.last_revision()
+            )
         if result is None:
             raise InvalidRevisionSpec(self.user_spec, context_branch)
         return result
